@@ -327,7 +327,7 @@ OkResultOnlyAfterOkBody ==
   [][(dir'["root"].res = "ok" /\ dir["root"].res # "ok") => \E p \in Procs : outcome[p] = "ok" /\ exc[p] = "none"]_vars
 (* C13 *)
 ErrNeverServed ==                        \* a submission that found an errored result executes again
-  \A p \in Procs : (pc[p] = "hit") => \E c \in CacheSet : dir[c].res = "ok"
+  \A p \in Procs : (alive[p] /\ pc[p] = "hit") => \E c \in CacheSet : dir[c].res = "ok"   \* a dead process serves nobody: after its lock is broken a rerun may clear the entry (MC_C12_deep)
 RaiseIsReported ==                       \* a raising body ends in `raised`, with the error recorded, never `ok`
   \A p \in Procs : (outcome[p] = "raise" /\ pc[p] = "idle" /\ alive[p]) => ret[p] = "raised"
 ErrorRecorded ==
